@@ -22,6 +22,7 @@ pub mod c02;
 pub mod c04;
 pub mod c08;
 pub mod c09;
+pub mod c03;
 pub mod c06;
 pub mod c11;
 pub mod c20;
@@ -107,6 +108,22 @@ pub fn install_panic_hook() {
         } else {
             "<non-string panic>".to_string()
         };
+        // A panic raised inside std on behalf of its caller (clamp, slice indexing helpers,
+        // unwrap of a std type ...) reports a location in the standard library: attribute it to
+        // the innermost frame that is neither std nor the panic machinery.
+        let mut loc = loc;
+        if loc.contains("/rustc/") || loc.contains("/library/") {
+            let bt = std::backtrace::Backtrace::force_capture().to_string();
+            for line in bt.lines() {
+                let l = line.trim();
+                let Some((_, name)) = l.split_once(": ") else { continue };
+                if name.starts_with("std::") || name.starts_with("core::") || name.starts_with("alloc::") || name.starts_with('<') && (name.contains(" as core::") || name.contains(" as std::") || name.contains(" as alloc::")) || name.contains("rust_begin_unwind") || name.contains("__rust") || name.contains("qv::check::install_panic_hook") {
+                    continue;
+                }
+                loc = format!("{loc} (in {name})");
+                break;
+            }
+        }
         LAST_PANIC.with(|p| *p.borrow_mut() = Some((loc, msg)));
     }));
 }
@@ -130,6 +147,12 @@ pub fn run_group<F>(ctx: &Ctx, rep: &mut Report, g: &Group, f: F)
 where
     F: Fn(u64, u64, bool) -> CaseOut + Sync,
 {
+    // debugging aid: restrict a run to some groups
+    if let Ok(only) = std::env::var("QV_ONLY_GROUP") {
+        if !only.split(',').any(|x| x == g.name) {
+            return;
+        }
+    }
     // replay mode: run exactly one case, with tracing
     if let Some((gname, idx, seed)) = &ctx.replay {
         if gname != g.name {
@@ -291,7 +314,7 @@ pub fn finish(ctx: &Ctx, rep: &Report, fin: Finish, wall_s: f64) -> i32 {
             new_viol.push((g, idx, seed, v));
         }
     }
-    if ctx.prop == "ANY" {
+    if ctx.prop == "ANY" || std::env::var("QV_SIGHIST").is_ok() {
         let mut hist: BTreeMap<String, (u64, String)> = BTreeMap::new();
         for (g, idx, _seed, v) in &rep.violations {
             let mut sig = format!("{} {}", v.prop, normalize(&v.msg));
